@@ -576,7 +576,7 @@ def gen_variation(t: Tape, j: int, pool_n: int) -> dict:
         "jumps": [t.pick([0.0, 3600.0, -86400.0, 1e-6, -0.5, 31_536_000.0], "var.jump") for _ in range(t.choose(6, "var.nj"))],
         "shuffle_dirs": bool(t.choose(2, "var.shuf")),
         "nasty_history": bool(t.choose(2, "var.nasty")),
-        "siblings": t.pick(["none", "same_text", "same_call", "both"], "var.sib"),
+        "siblings": t.pick(["none", "same_text", "same_call", "both", "near_twin", "near_twin"], "var.sib"),
         # unicode battery: every character served in position `first`, then probed in position `then`
         "unibattery": (None if t.choose(3, "var.ub") else
                        {"first": t.pick(list(c06_calls.UNI_POSITIONS), "var.ub1"), "then": t.pick(list(c06_calls.UNI_POSITIONS), "var.ub2"),
@@ -667,6 +667,13 @@ def run_variation_child(var: dict, calls_by_id: dict, tape_values=None) -> dict:
                     hist.append(dict(base, id=500000 + pid_, api="py.repair"))
             if sib in ("same_call", "both"):
                 hist.append(dict(c0, id=600000 + pid_))
+            if sib == "near_twin" and c0.get("text"):
+                # the SAME call on an almost identical text (another normalisation form, case, whitespace): whatever the
+                # process remembers about the twin must not leak into the answer for the probe
+                for rep in range(2):
+                    tw = c06_calls.near_twin(tape, c0["text"])
+                    if tw is not None:
+                        hist.append(dict(c0, id=650000 + pid_ * 2 + rep, text=tw))
     if var.get("nasty_history"):
         hist = hist + NASTY
         hist = tape.shuffle(hist, "hist.order")
